@@ -236,7 +236,7 @@ func drawGesvd(t *rapid.T) kase {
 }
 
 func TestGesvd(t *testing.T) {
-	vk.Run(t, "gesvd", vk.Opts{Quick: 600, Thorough: 18000}, drawGesvd, checkGesvd)
+	vk.Run(t, "gesvd", vk.Opts{Quick: 2400, Thorough: 18000}, drawGesvd, checkGesvd)
 }
 
 // ---- Dgebrd / Dgebd2 / Dorgbr / Dormbr ----------------------------------------------
@@ -518,11 +518,20 @@ func drawGebrd(t *rapid.T) kase {
 	c.J[2] = rapid.IntRange(0, 2).Draw(t, "ptrows")
 	c.J[3] = rapid.IntRange(0, 7).Draw(t, "ormbr")
 	c.K = rapid.IntRange(0, 12).Draw(t, "k")
-	hi := 40
+	c.M, c.N = drawShape(t, 40)
 	if rapid.IntRange(0, 7).Draw(t, "big") == 0 {
-		hi = 150 // the blocked path needs min(m,n) > nx = 128
+		// the blocked path needs min(m,n) > nx = 128
+		k := rapid.SampledFrom([]int{100, 128, 129, 130, 140, 150, 161}).Draw(t, "kbig")
+		e := rapid.SampledFrom([]int{0, 1, 5, 40}).Draw(t, "ebig")
+		switch rapid.IntRange(0, 2).Draw(t, "bigshape") {
+		case 0:
+			c.M, c.N = k, k
+		case 1:
+			c.M, c.N = k+e, k
+		default:
+			c.M, c.N = k, k+e
+		}
 	}
-	c.M, c.N = drawShape(t, hi)
 	c.Pad = drawPads(t, 4)
 	c.LW = drawLW(t)
 	c.Cls = rapid.IntRange(0, numRectCls-1).Draw(t, "cls")
@@ -532,7 +541,7 @@ func drawGebrd(t *rapid.T) kase {
 }
 
 func TestGebrd(t *testing.T) {
-	vk.Run(t, "gebrd", vk.Opts{Quick: 350, Thorough: 10000}, drawGebrd, checkGebrd)
+	vk.Run(t, "gebrd", vk.Opts{Quick: 1000, Thorough: 10000}, drawGebrd, checkGebrd)
 }
 
 // ---- Dbdsqr / Dlasq1 -----------------------------------------------------------------
@@ -766,7 +775,7 @@ func drawBdsqr(t *rapid.T) kase {
 }
 
 func TestBdsqr(t *testing.T) {
-	vk.Run(t, "bdsqr", vk.Opts{Quick: 450, Thorough: 14000}, drawBdsqr, checkBdsqr)
+	vk.Run(t, "bdsqr", vk.Opts{Quick: 1500, Thorough: 14000}, drawBdsqr, checkBdsqr)
 }
 
 // ---- Dlasv2 / Dlas2 ---------------------------------------------------------------------
